@@ -115,15 +115,17 @@ def battery(raw: bytes):
 
 
 def check_battery(c):
+    """One case = one generated unit of EVERY entry of the family (a drawn entry would starve some of them at small n)."""
     devs, seen, n = [], set(), 0
-    raw = bytes.fromhex(c["raw"])
-    for shape, suffix in battery(raw):
-        r = check_suffix({**c, "suffix": suffix.hex(), "shape": shape})
-        n += 1
-        for d in r:
-            if d.sub not in seen:
-                seen.add(d.sub)
-                devs.append(d)
+    for u in c["units"]:
+        raw = bytes.fromhex(u["raw"])
+        for shape, suffix in battery(raw):
+            r = check_suffix({**u, "suffix": suffix.hex(), "shape": shape})
+            n += 1
+            for d in r:
+                if d.sub not in seen:
+                    seen.add(d.sub)
+                    devs.append(d)
     return devs, n
 
 
@@ -312,10 +314,10 @@ for _fam in FAMILIES:
     CLAUSES.append(Clause(
         id=f"C09.battery.{_fam}",
         doc=f"{_fam}: every generated unit followed by each of a fixed battery of suffixes (entity / filestore / other TLVs, LVs, 4..34 octets, fills, the unit again): same oracle as the suffix clause",
-        strategy=(lambda _fam=_fam: st.sampled_from(units(_fam)).flatmap(lambda e: e.valid().map(lambda v: {"entry": e.name, "cfg": v["cfg"], "raw": v["raw"], "crc": v.get("crc", 0)}))),
-        check=check_battery, classify=lambda c: [c["entry"]] + (["pdu with crc"] if c.get("crc") else []), required=[e.name for e in units(_fam)], weight_by_evals=True,
-        rule="every (unit, suffix of the battery) pair is non-trivial",
-        n={"quick": 25 * len(units(_fam)), "thorough": 300 * len(units(_fam))},
+        strategy=(lambda _fam=_fam: st.tuples(*[e.valid().map(lambda v, e=e: {"entry": e.name, "cfg": v["cfg"], "raw": v["raw"], "crc": v.get("crc", 0)}) for e in units(_fam)]).map(lambda t: {"units": list(t)})),
+        check=check_battery, classify=lambda c: [u["entry"] for u in c["units"]] + (["pdu with crc"] if any(u.get("crc") for u in c["units"]) else []), required=[e.name for e in units(_fam)],
+        weight_by_evals=True, rule="every (unit, suffix of the battery) pair is non-trivial",
+        n={"quick": 25, "thorough": 300},
     ))
     if walkers(_fam):
         CLAUSES.append(Clause(
